@@ -155,6 +155,7 @@ type c03Op struct {
 type c03Case struct {
 	nsvc    int
 	retries int
+	retryCl bool // retry stratum: transient/404 mixtures over 3-4 rounds (error class of the failed read)
 	blocks  []*c03Block
 	ops     []c03Op
 	net     bool
@@ -460,6 +461,9 @@ func c03Content(r *vRand) []byte {
 func c03Script(r *vRand, c *c03Case, bl *c03Block, nAttempts int) [][]c03Resp {
 	content := bl.content
 	mode := r.Intn(5)
+	if c.retryCl {
+		mode = 6
+	}
 	if !bl.consistent {
 		// a locator whose size hint is wrong is interesting when a service answers 200 with a well-formed
 		// body (right digest, Content-Length = real length != hint): mostly-200 scripts
@@ -487,6 +491,17 @@ func c03Script(r *vRand, c *c03Case, bl *c03Block, nAttempts int) [][]c03Resp {
 					beh = []int{c03S408, c03S429, c03S500, c03S503, c03Conn}[r.Intn(5)]
 				} else {
 					beh = []int{c03Correct, c03ChunkedOK, c03LongExtra}[r.Intn(3)]
+				}
+			case 6: // retry stratum: per service a run of transient failures that ends in a 404, a 403, an answer, or never
+				switch y := r.Intn(20); {
+				case y < 11:
+					beh = []int{c03S408, c03S429, c03S500, c03S503, c03Conn}[r.Intn(5)]
+				case y < 17:
+					beh = c03S404
+				case y < 18:
+					beh = c03S403
+				default:
+					beh = []int{c03Correct, c03ChunkedOK, c03Flip}[r.Intn(3)]
 				}
 			case 5: // the first answer of every service is (mostly) the stored block as it is
 				beh = r.Intn(c03S404)
@@ -520,7 +535,12 @@ func c03Gen(t *testing.T, r *vRand, i int) *c03Case {
 		nblocks = 2
 	}
 	fileCase := kind%4 == 1
-	c.tags = append(c.tags, fmt.Sprintf("services=%d", c.nsvc), fmt.Sprintf("retries=%d", c.retries))
+	if r.Chance(1, 6) {
+		// the error class of a read that fails after several rounds: enough rounds for the retry set to shrink twice
+		c.retryCl, fileCase = true, false
+		c.retries = 2 + r.Intn(4)/3
+		c.tags = append(c.tags, "retry-stratum")
+	}
 	for b := 0; b < nblocks; b++ {
 		content := c03Content(r)
 		if b == 1 && len(content) == 0 {
@@ -568,6 +588,7 @@ func c03Gen(t *testing.T, r *vRand, i int) *c03Case {
 		c.tags = append(c.tags, fmt.Sprintf("size=%d", c03SizeBucket(len(content))))
 		c.blocks = append(c.blocks, bl)
 	}
+	c.tags = append(c.tags, fmt.Sprintf("services=%d", c.nsvc), fmt.Sprintf("retries=%d", c.retries))
 	// operations
 	nops := 1 + r.Intn(4)
 	hasHint := func(b int) bool { return size03(c.blocks[b].loc) >= 0 }
@@ -660,8 +681,11 @@ func c03Gen(t *testing.T, r *vRand, i int) *c03Case {
 	// enough scripted attempts for every fetch the operations can cause
 	// (a request beyond the script gets a connection error, in the stub and in the model alike)
 	nAtt := (c.retries + 1) * (len(c.ops) + 1)
-	if nAtt > 5 {
+	if nAtt > 5 && !c.retryCl {
 		nAtt = 5
+	}
+	if nAtt > 12 {
+		nAtt = 12
 	}
 	for _, bl := range c.blocks {
 		bl.script = c03Script(r, c, bl, nAtt)
@@ -769,7 +793,7 @@ func c03Wait(d time.Duration, cond func() bool) bool {
 	}
 }
 
-func c03Run(t *testing.T, c *c03Case) (results []c03Result, log [][3]int, synced bool, htab map[string]string) {
+func c03Run(t *testing.T, c *c03Case) (results []c03Result, log [][3]int, nreq []int, synced bool, htab map[string]string) {
 	synced = true
 	svc := &c03Services{c: c, byHost: map[string]int{}, attempt: map[[2]int]int{}}
 	roots := map[string]string{}
@@ -827,6 +851,7 @@ func c03Run(t *testing.T, c *c03Case) (results []c03Result, log [][3]int, synced
 			}
 		}
 	}
+	var marks []int
 	readAt := func(b *c03Block, n, off int) (string, string) {
 		p := make([]byte, n)
 		m, err := kc.ReadAt(b.loc, p, off)
@@ -837,6 +862,10 @@ func c03Run(t *testing.T, c *c03Case) (results []c03Result, log [][3]int, synced
 		svc.mtx.Lock()
 		svc.writerTo = o.writerTo
 		svc.chunk = o.chunk
+		// the requests this operation causes = growth of the request log while it runs (all its requests are over
+		// when it returns: the cache's fetch goroutine finishes before any waiter is released, Get returns after
+		// its last request, and the services log a request before they answer it)
+		marks = append(marks, len(svc.log))
 		svc.mtx.Unlock()
 		switch o.kind {
 		case 0:
@@ -969,6 +998,10 @@ func c03Run(t *testing.T, c *c03Case) (results []c03Result, log [][3]int, synced
 	}
 	svc.mtx.Lock()
 	log = append(log, svc.log...)
+	marks = append(marks, len(svc.log))
+	for k := 0; k+1 < len(marks); k++ {
+		nreq = append(nreq, marks[k+1]-marks[k])
+	}
 	if svc.unknown > 0 {
 		synced = false
 	}
@@ -991,7 +1024,7 @@ func TestVerifC03(t *testing.T) {
 		}
 		r := vCaseRand(seed, i)
 		c := c03Gen(t, r, i)
-		results, log, synced, htab := c03Run(t, c)
+		results, log, nreq, synced, htab := c03Run(t, c)
 		// ---- Gallina ----
 		bl := make([]string, len(c.blocks))
 		for bi, b := range c.blocks {
@@ -1024,8 +1057,8 @@ func TestVerifC03(t *testing.T) {
 		for k, l := range log {
 			lg[k] = fmt.Sprintf("(%d, %d, %d)", l[0], l[1], l[2])
 		}
-		term := fmt.Sprintf("(%s\n  {| c_in := {| i_retries := %d; i_blocks := %s;\n    i_htab := %s;\n    i_ops := %s |};\n   c_obs := {| ob_res := %s;\n    ob_log := %s; ob_sync := %s |} |})",
-			c.lets(), c.retries, gList(bl), gList(ht), gList(ops), gList(rs), gList(lg), gBool(synced))
+		term := fmt.Sprintf("(%s\n  {| c_in := {| i_retries := %d; i_blocks := %s;\n    i_htab := %s;\n    i_ops := %s |};\n   c_obs := {| ob_res := %s;\n    ob_log := %s; ob_nreq := %s; ob_sync := %s |} |})",
+			c.lets(), c.retries, gList(bl), gList(ht), gList(ops), gList(rs), gList(lg), c03Ints(nreq), gBool(synced))
 		var bd []map[string]interface{}
 		for _, b := range c.blocks {
 			var sc [][]string
@@ -1040,7 +1073,7 @@ func TestVerifC03(t *testing.T) {
 				"size_hint": size03(b.loc), "every_200_answer_declares_length": c03DeclaredOnly(b)})
 		}
 		desc := map[string]interface{}{"index": i, "services": c.nsvc, "retries": c.retries, "blocks": bd, "ops": ops, "results": ds,
-			"requests": log, "loopback": c.net, "concurrent_readers_synchronised": synced}
+			"requests": log, "requests_per_operation": nreq, "loopback": c.net, "concurrent_readers_synchronised": synced}
 		tags := append([]string(nil), c.tags...)
 		for _, o := range c.ops {
 			tags = append(tags, "op="+[]string{"get", "readat", "concurrent-readat", "file"}[o.kind])
@@ -1057,6 +1090,16 @@ func TestVerifC03(t *testing.T) {
 		}
 		if !synced {
 			tags = append(tags, "concurrent-readers-not-synchronised")
+		}
+		for k, d := range ds {
+			for _, cl := range []string{"ENotFound", "ETemp", "EPerm"} {
+				if strings.Contains(d, cl) {
+					tags = append(tags, "failed-read="+cl)
+					if k < len(nreq) && nreq[k] > 2*c.nsvc {
+						tags = append(tags, "failed-read-after-3-or-more-rounds")
+					}
+				}
+			}
 		}
 		cs.Add(i, term, desc, len(log) >= 2, tags...)
 	}
